@@ -359,12 +359,82 @@ def suite_cpp_corpus(seed, tier):
     return r
 
 
+# ------------------------------------------------------------------ many rows (cross-row accumulators)
+def gen_many_rows(rng, n, w, col):
+    """n packed rows of w bytes: a bulk family on the bits C = {col} + c-1 others, bit `col` set in EVERY row,
+    and outliers whose similarities to the centroid are close to one another (a prefix-like row {col} and a
+    row {col, one more bit of C, k foreign bits}), so that the result depends on every bit of the centroid"""
+    nb = 8 * w
+    others = [b for b in range(nb) if b != col]
+    rng.shuffle(others)
+    c = rng.randint(3, max(3, min(6, nb // 2)))
+    C = [col] + others[:c - 1]
+    foreign = others[c - 1:]
+    X = np.zeros((n, nb), dtype=np.uint8)
+    X[:, C] = 1
+    k = min(len(foreign), rng.randint(c, c + 3))
+    outl = [[col], [col, C[1]] + foreign[:k]]
+    for _ in range(rng.randint(0, 4)):
+        outl.append([col] + rng.sample(others, rng.randint(1, min(len(others), 6))))
+    pos = rng.sample(range(n), len(outl))
+    for p_, bits_ in zip(pos, outl):
+        X[p_, :] = 0
+        X[p_, bits_] = 1
+    return np.packbits(X, axis=1)
+
+
+def suite_cpp_large(seed, tier):
+    """the most-dissimilar search on 255 .. 200000 rows (the kernel accumulates column sums across rows):
+    compiled kernel against the Python fallback, bit for bit; no model term (the literals would be MBs)"""
+    import cppkern as ck
+    r = Result("cpp-large")
+    try:
+        L = lib()
+    except Exception as e:
+        r.error = f"similarity.cpp does not compile against the stand-in: {str(e)[-1500:]}"
+        return r
+    P, _ = py()
+    rng = random.Random(seed + 17)
+    ns = [255, 256, 257, 65535, 65536, 65537] + ([rng.randint(65538, 80000)] if tier == "quick"
+                                                 else [70000, 131071, 131072, 131073, 200000])
+    for n in ns:
+        for w in ([1, 8] if tier == "quick" else [1, 2, 8, 64]):
+            if n * w > 4_000_000:
+                continue
+            for col in sorted({0, 8 * w - 1, rng.randrange(8 * w)}):
+                m = rng.choice(MISALIGN)
+                case_seed = f"many-rows-{seed}-{n}-{w}-{col}"
+                X = gen_many_rows(random.Random(case_seed), n, w, col)
+                r.cases += 1
+                inp = {"generator": "gen_many_rows", "n": n, "width": w, "all_rows_bit": col, "misalign": m,
+                       "case_seed": case_seed}
+                try:
+                    f1, f2, s1, s2 = ck.most_dissimilar(X, n_features=None, misalign=m, lib=L)
+                except ck.KernelError as e:
+                    r.bad.append({"suite": "cpp-large", "what": f"most_dissimilar: the compiled kernel throws ({e}) "
+                                  "where the fallback returns a value", "kernel": "most_dissimilar", "input": inp})
+                    continue
+                e1, e2, t1, t2 = P.jt_most_dissimilar_packed(X, None)
+                same = (int(f1), int(f2)) == (int(e1), int(e2)) and \
+                    np.array_equal(np.asarray(s1, dtype=np.float64).view(np.uint64), np.asarray(t1, dtype=np.float64).view(np.uint64)) and \
+                    np.array_equal(np.asarray(s2, dtype=np.float64).view(np.uint64), np.asarray(t2, dtype=np.float64).view(np.uint64))
+                if not same:
+                    inp["rows_distinct"] = sorted({tuple(row) for row in X.tolist()})[:12]
+                    r.bad.append({"suite": "cpp-large", "what": f"most_dissimilar: C++ and Python fallback differ on {n} "
+                                  f"rows of {w} bytes that all have bit {col} set: (fp_1, fp_2) = {(int(f1), int(f2))} vs "
+                                  f"{(int(e1), int(e2))}", "kernel": "most_dissimilar", "input": inp})
+    r.nontrivial = r.cases
+    r.stats = {"row_counts": ns}
+    r.samples = [{"n": ns[0], "width": 1}]
+    return r
+
+
 # ------------------------------------------------------------------ search / replay
 def search_c13(seed, tier, failures):
     for kind, d in failures:
         if isinstance(d, dict) and "what" in d and "Model/" not in d["what"]:
             return {"violation": d["what"], **{k: v for k, v in d.items() if k not in ("what", "suite")}}
-    for s in (suite_cpp, suite_cpp_e2e):
+    for s in (suite_cpp_large, suite_cpp, suite_cpp_e2e):
         try:
             rr = s(seed + 1, "thorough" if s is suite_cpp else "quick")
         except Exception:
@@ -385,6 +455,16 @@ def replay_c13(payload):
     L = lib()
     k, inp = fi.get("kernel"), fi["input"]
     m = inp.get("misalign", 0)
+    if inp.get("generator") == "gen_many_rows":
+        X = gen_many_rows(random.Random(inp["case_seed"]), inp["n"], inp["width"], inp["all_rows_bit"])
+        try:
+            f1, f2, s1, s2 = ck.most_dissimilar(X, n_features=None, misalign=m, lib=L)
+        except ck.KernelError:
+            return False
+        e1, e2, t1, t2 = P.jt_most_dissimilar_packed(X, None)
+        return (int(f1), int(f2)) == (int(e1), int(e2)) and \
+            [bits(float(v)) for v in s1] == [bits(float(v)) for v in t1] and \
+            [bits(float(v)) for v in s2] == [bits(float(v)) for v in t2]
     if k == "popcount":
         X = np.array(inp["rows"], dtype=np.uint8)
         return [int(v) for v in ck.popcount_2d(X, misalign=m, lib=L)] == [int(v) for v in np.atleast_1d(P._popcount(X))]
